@@ -115,26 +115,39 @@ def ack_ctrl(ctx):
     hp = ctx.inbound_handler()
     effs = ctx.effects(hp)
     out = []
+    import contextlib
+    from spec import variant_specs
+    sw0 = match_arms(hp, RXPACKET)[0]
+    specs = variant_specs(ctx, hp, RXPACKET, sw0)
     for e in [e for e in effs if e.kind == "Ack" and not e.via]:
         r = short_ty(e.detail["reason"])
         deps = hp.control_dep_closure(e.inner_bb)
         bad = []
         n = 0
-        for (bb, succ) in sorted(deps):
-            atoms, si = _decision_atoms(hp, bb)
-            if si is None:
-                continue
-            n += 1
-            fields = {(short_ty(a[1]), a[2]) for a in atoms if a[0] == "field" and not isinstance(a[2], int)}
-            calls = {a[1] for a in atoms if a[0] == "call"}
-            badf = sorted(f for f in fields if f[1] not in ALLOWED_FIELDS and f[0] not in ("RxPacket",))
-            badc = sorted(c for c in calls if any(p in c for p in FORBIDDEN_CALL_PARTS))
-            if "Try::branch" in " ".join(calls) and not _is_try_on_write(hp, atoms):
-                badc.append("?-on-non-write")
-            for f in badf:
-                bad.append(("%s.%s" % f, hp.site(bb)))
-            for c in badc:
-                bad.append(("call " + "::".join(c.split("::")[-2:]), hp.site(bb)))
+        # judged for each kind of packet that can reach the acknowledgement: a test whose outcome is fixed by the kind of
+        # packet (the arms left a note such as `Followup::Puback(id)` that is matched on after they joined) is no
+        # decision, and a value defined in several arms is what this kind's arm made it
+        kinds = [v for v, sp in specs.items() if e.inner_bb in sp.reach] or [None]
+        for v_ in kinds:
+            sp = specs.get(v_) if v_ else None
+            with (sp.pinned() if sp is not None else contextlib.nullcontext()):
+                for (bb, succ) in sorted(deps):
+                    if sp is not None and (bb not in sp.reach or len([x for x in hp.succ(bb) if (bb, x) in sp.edges]) <= 1):
+                        continue
+                    atoms, si = _decision_atoms(hp, bb)
+                    if si is None:
+                        continue
+                    n += 1
+                    fields = {(short_ty(a[1]), a[2]) for a in atoms if a[0] == "field" and not isinstance(a[2], int) and not str(a[1]).startswith("std::")}
+                    calls = {a[1] for a in atoms if a[0] == "call"}
+                    badf = sorted(f for f in fields if f[1] not in ALLOWED_FIELDS and f[0] not in ("RxPacket",))
+                    badc = sorted(c for c in calls if any(p in c for p in FORBIDDEN_CALL_PARTS))
+                    if "Try::branch" in " ".join(calls) and not _is_try_on_write(hp, atoms):
+                        badc.append("?-on-non-write")
+                    for f in badf:
+                        bad.append(("%s.%s" % f, hp.site(bb)))
+                    for c in badc:
+                        bad.append(("call " + "::".join(c.split("::")[-2:]), hp.site(bb)))
         if not bad:
             out.append(Inst("ACK-CTRL", "ack<%s>" % r, True, e.site(), "control dependent on %d decisions, all over packet type / qos / packet_identifier" % n,
                             "allowed decision provenance: %s" % sorted(ALLOWED_FIELDS)))
